@@ -539,3 +539,60 @@ Proof.
   - repeat constructor; cbn; intuition.
   - vm_compute. discriminate.
 Qed.
+
+(** * Commutativity exactly outside the class of the open finding
+
+    [unambiguous m1 m2]: the two entries do not tie on both counters, or carry the same access, or
+    neither carries conditions.  Its negation - a tie on both counters between two different
+    accesses at least one of which carries conditions - is the class [known] of the finding
+    [merge_noncommutative_with_conditions]. *)
+Definition unambiguous {C} (m1 m2 : MemberState C) : Prop :=
+  member_counter m1 <> member_counter m2 \/ access_counter m1 <> access_counter m2 \/
+  access m1 = access m2 \/ (no_cond (access m1) /\ no_cond (access m2)).
+
+Lemma beats_by_member_counter {C} (lt : Access C -> Access C -> bool) m1 m2 :
+  (member_counter m2 < member_counter m1)%N -> beats lt m1 m2 = true /\ beats lt m2 m1 = false.
+Proof.
+  intros H. split; [apply beats_iff; left; exact H|].
+  apply not_true_iff_false. rewrite beats_iff. intros [X|[X _]]; lia.
+Qed.
+
+Lemma beats_by_access_counter {C} (lt : Access C -> Access C -> bool) m1 m2 :
+  member_counter m1 = member_counter m2 -> (access_counter m2 < access_counter m1)%N ->
+  beats lt m1 m2 = true /\ beats lt m2 m1 = false.
+Proof.
+  intros E H. split; [apply beats_iff; right; split; [exact E|left; exact H]|].
+  apply not_true_iff_false. rewrite beats_iff. intros [X|[_ [X|[X _]]]]; lia.
+Qed.
+
+Lemma merge_member_comm_unambiguous {C} (ccmp : C -> C -> option comparison) (m1 m2 : MemberState C) :
+  unambiguous m1 m2 ->
+  merge_member_with (access_lt ccmp) m1 m2 = merge_member_with (access_lt ccmp) m2 m1.
+Proof.
+  intros U. rewrite !merge_member_sel.
+  destruct (N.lt_trichotomy (member_counter m1) (member_counter m2)) as [Hc|[Hc|Hc]].
+  - destruct (beats_by_member_counter (access_lt ccmp) m2 m1 Hc) as [-> ->]. reflexivity.
+  - destruct (N.lt_trichotomy (access_counter m1) (access_counter m2)) as [Hk|[Hk|Hk]].
+    + destruct (beats_by_access_counter (access_lt ccmp) m2 m1 (eq_sym Hc) Hk) as [-> ->]. reflexivity.
+    + destruct U as [U|[U|[U|[U1 U2]]]]; try contradiction.
+      * assert (m1 = m2) as ->.
+        { destruct m1 as [c1 a1 k1], m2 as [c2 a2 k2]. cbn [member_counter access access_counter] in *.
+          subst. reflexivity. }
+        reflexivity.
+      * rewrite <- !merge_member_sel.
+        apply (merge_member_comm _ _ (real_lt_strict_total_nocond ccmp)); assumption.
+    + destruct (beats_by_access_counter (access_lt ccmp) m1 m2 Hc Hk) as [-> ->]. reflexivity.
+  - destruct (beats_by_member_counter (access_lt ccmp) m1 m2 Hc) as [-> ->]. reflexivity.
+Qed.
+
+Theorem merge_comm_outside_known {C} (ccmp : C -> C -> option comparison) (s1 s2 : State C) id :
+  wf s1 -> wf s2 ->
+  (forall m1 m2, lookup id s1 = Some m1 -> lookup id s2 = Some m2 -> unambiguous m1 m2) ->
+  lookup id (merge ccmp s1 s2) = lookup id (merge ccmp s2 s1).
+Proof.
+  intros W1 W2 U. unfold merge.
+  rewrite (lookup_merge _ s1 s2 id W1), (lookup_merge _ s2 s1 id W2).
+  destruct (lookup id s1) as [m1|] eqn:E1; destruct (lookup id s2) as [m2|] eqn:E2;
+    cbn [merge_opt]; try reflexivity.
+  f_equal. apply merge_member_comm_unambiguous. apply U; reflexivity.
+Qed.
